@@ -4,9 +4,9 @@
 (* real directory whose protected files are tiny (so that TLC itself       *)
 (* computes the ground truth from the logged bytes with Par2Scan).         *)
 (*                                                                         *)
-(* Line 1 of trace.ndjson is the instance: slice size, names in recovery-  *)
-(* set order, protected contents, exponent sets of the volume files.       *)
-(* Every other line is one operation executed on the real code:            *)
+(* Every "op" line is one operation executed on the real code and carries  *)
+(* its own instance (s, names in recovery-set order, prot, vols = exponent *)
+(* sets of the volume files); other lines (ev = "instance") are skipped:   *)
 (*   pre / post : contents of the protected files before / after           *)
 (*   prevols / postvols : volume files present before / after              *)
 (*   res  : what the API returned (error class, counts, repaired paths)    *)
@@ -22,72 +22,75 @@ EXTENDS Integers, Sequences, FiniteSets, TLC, Json
 
 ASSUME TLCSet(1, ndJsonDeserialize("trace.ndjson"))
 Trace == TLCGet(1)
-Hdr == Trace[1]
 
-S == Hdr.s
-Names == Hdr.names
-Prot == Hdr.prot
-VolSeq == Hdr.vols                              \* sequence of sequences of exponents
-Vols == [i \in 1 .. Len(VolSeq) |-> {VolSeq[i][k] : k \in 1 .. Len(VolSeq[i])}]
-
-Scan == INSTANCE Par2Scan
+SP == INSTANCE ScanP
 PC == INSTANCE Par2Const
 GF16 == INSTANCE GF WITH W <- 16, Poly <- 69643, Gen <- 2, Reg <- 10
 M16 == INSTANCE Matrix WITH MulOp <- GF16!FastMul, InvOp <- GF16!FastInv, AddOp <- GF16!Add
 
 ToSet(s) == {s[i] : i \in 1 .. Len(s)}
-NameSet == Scan!NameSet
+
+\* every "op" event carries its own instance: slice size e.s, names in recovery-set order
+\* e.names, protected contents e.prot, exponent sets of the volume files e.vols
+IsOp(e) == e.ev = "op"
+NameSetE(e) == SP!NameSet(e.names)
+PosE(e) == SP!Pos(e.s, e.names, e.prot)
+NTotalE(e) == Cardinality(PosE(e))
+OccurringE(e, d) == SP!Occurring(e.s, e.names, e.prot, d)
+SurvivorsE(e, d) == SP!Survivors(e.s, e.names, e.prot, d)
+GIndexE(e, p) == SP!GIndex(e.s, e.names, e.prot, p)
+VolsE(e) == [i \in 1 .. Len(e.vols) |-> ToSet(e.vols[i])]
 
 \* field tables are needed only to justify a "singular" outcome
-NeedField == \E i \in 2 .. Len(Trace) : Trace[i].ev = "op" /\ Trace[i].res.err = "singular"
+NeedField == \E i \in 1 .. Len(Trace) : IsOp(Trace[i]) /\ Trace[i].res.err = "singular"
 ASSUME NeedField => (GF16!InitTablesp(0) /\ GF16!TablesOKp(0))
 
 VARIABLE l
 
-Exps(vs) == UNION {Vols[v] : v \in vs}
-AllIntact(d) == \A f \in NameSet : d[f] = Prot[f]
+Exps(e, vs) == UNION {VolsE(e)[v] : v \in vs}
+AllIntact(e, d) == \A f \in NameSetE(e) : d[f] = e.prot[f]
 
 MinOf(Sx) == CHOOSE x \in Sx : \A y \in Sx : x <= y
 RECURSIVE SortedSeq(_)
 SortedSeq(Sx) == IF Sx = {} THEN << >> ELSE LET m == MinOf(Sx) IN << m >> \o SortedSeq(Sx \ {m})
 ReconMatrix(exps, missingIdx) ==
   [r \in 1 .. Len(exps) |-> [c \in 1 .. Len(missingIdx) |-> PC!Entry(exps[r], missingIdx[c])]]
-SingularFor(expSet, posSet) ==
+SingularFor(e, expSet, posSet) ==
   LET k == Cardinality(posSet)
   IN k > 0 /\ k <= Cardinality(expSet) /\
-     M16!Singular(ReconMatrix(SubSeq(SortedSeq(expSet), 1, k), SortedSeq({Scan!GIndex(p) : p \in posSet})))
+     M16!Singular(ReconMatrix(SubSeq(SortedSeq(expSet), 1, k), SortedSeq({GIndexE(e, p) : p \in posSet})))
 
 IsRepair(e) == e.op \in {"repair", "repairdc"}
 
 \* ---- the clauses; each yields TRUE when the event satisfies it -----------------------------
 WithinCapacity(e) ==
-  LET k  == Scan!NTotal - Cardinality(Scan!Survivors(e.pre))
-      ex == Exps(ToSet(e.prevols))
+  LET k  == NTotalE(e) - Cardinality(SurvivorsE(e, e.pre))
+      ex == Exps(e, ToSet(e.prevols))
   IN (k <= Cardinality(ex)) =>
-       \/ (e.res.err = "" /\ AllIntact(e.post))
+       \/ (e.res.err = "" /\ AllIntact(e, e.post))
        \/ (e.res.err = "singular" /\
-             \E found \in SUBSET Scan!Occurring(e.pre) :
-                 Scan!Survivors(e.pre) \subseteq found /\ SingularFor(ex, Scan!Pos \ found))
-OkMeansRestored(e) == e.res.err = "" => AllIntact(e.post)
+             \E found \in SUBSET OccurringE(e, e.pre) :
+                 SurvivorsE(e, e.pre) \subseteq found /\ SingularFor(e, ex, PosE(e) \ found))
+OkMeansRestored(e) == e.res.err = "" => AllIntact(e, e.post)
 
 WriteDiscipline(e) ==
-  /\ \A f \in NameSet : e.post[f] # e.pre[f] => (IsRepair(e) /\ e.post[f] = Prot[f] /\ f \in ToSet(e.res.repaired))
-  /\ \A f \in ToSet(e.writes) : IsRepair(e) /\ f \in NameSet /\ e.post[f] = Prot[f] /\ f \in ToSet(e.res.repaired)
-ListedMeansWritten(e) == IsRepair(e) => \A f \in ToSet(e.res.repaired) : f \in NameSet /\ e.post[f] = Prot[f]
+  /\ \A f \in NameSetE(e) : e.post[f] # e.pre[f] => (IsRepair(e) /\ e.post[f] = e.prot[f] /\ f \in ToSet(e.res.repaired))
+  /\ \A f \in ToSet(e.writes) : IsRepair(e) /\ f \in NameSetE(e) /\ e.post[f] = e.prot[f] /\ f \in ToSet(e.res.repaired)
+ListedMeansWritten(e) == IsRepair(e) => \A f \in ToSet(e.res.repaired) : f \in NameSetE(e) /\ e.post[f] = e.prot[f]
 NothingElseChanged(e) == e.outside = << >> /\ ToSet(e.postvols) = ToSet(e.prevols)
 VerifyPure(e) == e.op = "verify" => (e.post = e.pre /\ e.writes = << >> /\ e.outside = << >> /\ ToSet(e.postvols) = ToSet(e.prevols))
 
 VerifyReturns(e) == e.op = "verify" => e.res.err = ""
-Sound(e)    == (e.op = "verify" /\ e.res.err = "") => e.res.usable <= Cardinality(Scan!Occurring(e.pre))
-Complete(e) == (e.op = "verify" /\ e.res.err = "") => Cardinality(Scan!Survivors(e.pre)) <= e.res.usable
-Total(e)    == (e.op = "verify" /\ e.res.err = "") => e.res.usable + e.res.unusable = Scan!NTotal
-RecCount(e) == (e.op = "verify" /\ e.res.err = "") => e.res.pusable = Cardinality(Exps(ToSet(e.prevols)))
+Sound(e)    == (e.op = "verify" /\ e.res.err = "") => e.res.usable <= Cardinality(OccurringE(e, e.pre))
+Complete(e) == (e.op = "verify" /\ e.res.err = "") => Cardinality(SurvivorsE(e, e.pre)) <= e.res.usable
+Total(e)    == (e.op = "verify" /\ e.res.err = "") => e.res.usable + e.res.unusable = NTotalE(e)
+RecCount(e) == (e.op = "verify" /\ e.res.err = "") => e.res.pusable = Cardinality(Exps(e, ToSet(e.prevols)))
 \* "clean means intact", split by what is really on disk so that the two ways of violating it
 \* are told apart: every slice is still findable somewhere (files swapped, content shifted,
 \* trailing zeros lost, garbage appended) versus some slice is really gone.
-CleanButWrong(e) == e.op = "verify" /\ e.res.err = "" /\ ~e.res.needed /\ ~AllIntact(e.pre)
-CleanMeansIntact_AllPresent(e) == ~(CleanButWrong(e) /\ Scan!Occurring(e.pre) = Scan!Pos)
-CleanMeansIntact_SomeAbsent(e) == ~(CleanButWrong(e) /\ Scan!Occurring(e.pre) # Scan!Pos)
+CleanButWrong(e) == e.op = "verify" /\ e.res.err = "" /\ ~e.res.needed /\ ~AllIntact(e, e.pre)
+CleanMeansIntact_AllPresent(e) == ~(CleanButWrong(e) /\ OccurringE(e, e.pre) = PosE(e))
+CleanMeansIntact_SomeAbsent(e) == ~(CleanButWrong(e) /\ OccurringE(e, e.pre) # PosE(e))
 PossibleIff(e) == (e.op = "verify" /\ e.res.err = "") => (e.res.possible <=> (e.res.unusable <= e.res.pusable))
 NeededIff(e) == (e.op = "verify" /\ e.res.err = "") => (e.res.unusable > 0 => e.res.needed)
 
@@ -97,12 +100,12 @@ SuccessIsFixpoint(e) ==
      /\ e.after.repair.err = "" /\ e.after.repair.repaired = << >> /\ e.after.repair.writes = << >>
      /\ e.after.repair.outside = << >>
 FailureKeepsOrRestores(e) ==
-  (IsRepair(e) /\ e.res.err # "") => \A f \in NameSet : e.post[f] = e.pre[f] \/ e.post[f] = Prot[f]
+  (IsRepair(e) /\ e.res.err # "") => \A f \in NameSetE(e) : e.post[f] = e.pre[f] \/ e.post[f] = e.prot[f]
 
 \* the observer in the harness (used alone on big inputs) must agree with TLC's own truth here
 ObserverAgrees(e) ==
-  /\ e.obs.nsurv = Cardinality(Scan!Survivors(e.pre))
-  /\ e.obs.nocc = Cardinality(Scan!Occurring(e.pre))
+  /\ e.obs.nsurv = Cardinality(SurvivorsE(e, e.pre))
+  /\ e.obs.nocc = Cardinality(OccurringE(e, e.pre))
 
 Clauses(e) ==
   << << "C01.within_capacity", IsRepair(e) => WithinCapacity(e) >>,
@@ -136,13 +139,14 @@ Drift(e) == \/ e.res.err # e.model.err
             \/ (IsRepair(e) /\ ToSet(e.res.repaired) # ToSet(e.model.repaired))
             \/ (IsRepair(e) /\ e.post # e.model.post)
 
-Init == l = 2
+Init == l = 1
 Next == /\ l <= Len(Trace)
         /\ LET e == Trace[l] IN
-             /\ \A c \in Failed(e) : PrintT("VERDICT " \o ToJson([i |-> l, clause |-> c]))
-             /\ (Drift(e) => PrintT("DRIFT " \o ToJson([i |-> l])))
+             IsOp(e) =>
+               /\ \A c \in Failed(e) : PrintT("VERDICT " \o ToJson([i |-> l, clause |-> c]))
+               /\ (Drift(e) => PrintT("DRIFT " \o ToJson([i |-> l])))
         /\ l' = l + 1
 
-AllJudged == /\ PrintT("JUDGED " \o ToJson([n |-> TLCGet("stats").diameter]))
-             /\ TLCGet("stats").diameter = Len(Trace)
+AllJudged == /\ PrintT("JUDGED " \o ToJson([n |-> TLCGet("stats").diameter - 1]))
+             /\ TLCGet("stats").diameter - 1 = Len(Trace)
 =============================================================================
